@@ -477,3 +477,4 @@ def run(ctx):
   c05.r10_constant_carries_data(ctx, 'C04.R12')
   c05.r11_constant_numeric_table(ctx, 'C04.R13')
   shared.rule_operator_sweep(ctx, 'C04.R14')
+  shared.rule_weight_bias_parameters(ctx, 'C04.R15')
